@@ -43,10 +43,10 @@ def tombT : Nat := 2 ^ 64 - 2
 
 def lineAddr (args : String) : Option String := do
   let is ← (args.splitOn ",").mapM ins?
-  let evs := convert tombT 0 0 false none is
-  let inp := rowsStr (readRows tombT 0 false is)
+  let evs := convert tombT 0 0 false none false is
+  let inp := rowsStr (readRows tombT 0 false false is)
   if evOpen false evs then some s!"ok in={inp} failed"
-  else some s!"ok in={inp} out={rowsStr (readRows tombT 0 false (emit 0 evs))}"
+  else some s!"ok in={inp} out={rowsStr (readRows tombT 0 false false (emit 0 evs))}"
 
 def errName : Err → String
   | .wValueTooLarge => "ValueTooLarge"
